@@ -173,6 +173,10 @@ def run_cases(run, name, cases, hashmap, mysql_types):
 def run(run):
     proofs_ok = core.proof_stage(run, "Props/C18.v")
     mysql_types, hashmap = tables()
+    # types the shipped MySQL-to-Hive table maps although the parser's catalogue does not list them (pinned when this check was written): a table
+    # with such a column converted before, so it must keep converting
+    for ty, rng_ in (("JSON", (0, 0)), ("BINARY", (0, 1)), ("VARBINARY", (1, 1))):
+        mysql_types.setdefault(ty, list(rng_))
     tier_q = run.tier == "quick"
     cases = []
     # every catalogued type, with and without parameters, through change_type with both settings
